@@ -1,1 +1,15 @@
 import Reamber.Props.C19
+#print axioms Reamber.Analysis.consts_tie
+#print axioms Reamber.Analysis.dominantRows_eq
+#print axioms Reamber.Analysis.groupSum_dominantRows
+#print axioms Reamber.Analysis.dominant_is_max
+#print axioms Reamber.Analysis.isDominantB_iff
+#print axioms Reamber.Analysis.dominant_empty
+#print axioms Reamber.Analysis.refBpm_spec
+#print axioms Reamber.Analysis.sv_normalize_spec
+#print axioms Reamber.Analysis.sv_normalize_correct
+#print axioms Reamber.Analysis.svNormOkB_sound
+#print axioms Reamber.Analysis.scroll_speed_ref_partial
+#print axioms Reamber.Analysis.ffill_last_valid
+#print axioms Reamber.Analysis.ffill_value_source
+#print axioms Reamber.Analysis.sort_tie_counterexample
